@@ -30,7 +30,7 @@ from ..kit import cnat, cstr, cbool, clist, frac
 
 HDR = ("From Coq Require Import String.\nFrom Coq Require Import List ZArith QArith Qcanon.\n"
        "From NV.Lib Require Import RingMat Harness.\nFrom NV.C01 Require Import Model.\n"
-       "From NV.C04 Require Import Model Exec.\nClose Scope Q_scope.\nClose Scope Qc_scope.\nOpen Scope string_scope.\n")
+       "From NV.C04 Require Import Model ModelSwap Exec.\nClose Scope Q_scope.\nClose Scope Qc_scope.\nOpen Scope string_scope.\n")
 
 MODES = {"constant": "MConstant", "nearest": "MNearest", "reflect": "MReflect", "wrap": "MWrap",
          "mirror": "MMirror", "grid-constant": "MGridConstant", "grid-wrap": "MGridWrap"}
@@ -986,6 +986,81 @@ def sec_volumeimg(ck, T):
     ck.section("xyz_ordered", cases=nxyz)
 
 
+def sec_xyz_loop(ck, T):
+    """VolumeImg.xyz_ordered axis-swap loop (volume_img.py:270-275): every `_swapaxes` call of a real xyz_ordered() run is recorded
+    (axis pair, resulting image) and compared exactly with ModelSwap.swap_loop (trace of first inversions, affine columns and data-axis
+    order after the loop); direct oracles: adjacent swaps only, as many as the initial axis order has inversions, the image after the
+    loop has its world axes in order and shows every datum at its old world position."""
+    import itertools
+    import nipy.labs.datasets.volumes.volume_img as vi
+    VolumeImg = vi.VolumeImg
+    rng = ck.rng("xyz_loop")
+    perms = list(itertools.permutations(range(3)))
+    ncase = ck.n(96, 960)
+    for it in range(ncase):
+        perm = perms[it % 6]
+        signs = [(-1.0 if (it // 6 >> k) & 1 else 1.0) for k in range(3)]
+        sshape = tuple(int(x) for x in rng.permutation([2, 3, 4])) if it < 48 else tuple(int(x) for x in rng.integers(2, 6, 3))
+        pix = np.array([sg * 2.0 ** int(rng.integers(-1, 3)) for sg in signs])
+        b = rng.integers(-6, 7, 3) * 0.5
+        A = np.zeros((3, 3))
+        for i in range(3):
+            A[perm[i], i] = pix[i]
+        if it % 5 == 4:      # small off-axis terms below the 0.001 threshold of the rotation guard still take part in argmax
+            A = A + (A == 0) * 2.0 ** -11 * rng.integers(-1, 2, (3, 3))
+        S = hom(A, b)
+        data = np.arange(float(np.prod(sshape))).reshape(sshape)          # distinct values: the axis order of the result is observable
+        img = VolumeImg(data.copy(), S, "world", interpolation="nearest")
+        rep = {"entry": "VolumeImg.xyz_ordered/swap-loop", "affine": S.tolist(), "shape": sshape}
+        an0 = [int(x) for x in np.argmax(np.abs(A), axis=0)]
+        ninv = sum(1 for i in range(3) for k in range(i + 1, 3) if an0[i] > an0[k])
+        ck.count(("xyz_loop", S.tobytes(), sshape), nontrivial=ninv > 0, bucket="xyz_loop:inversions=%d" % ninv)
+        calls = []
+        real_swap = VolumeImg._swapaxes
+
+        def logged(self, axis1, axis2, _real=real_swap, _calls=calls):
+            out = _real(self, axis1, axis2)
+            # snapshot now: the flip step of xyz_ordered later rewrites _data / affine of this very object
+            _calls.append((int(axis1), int(axis2), np.array(out.affine, dtype=float), np.array(out.get_fdata())))
+            return out
+        with patched(VolumeImg, "_swapaxes", logged):
+            try:
+                res = img.xyz_ordered()
+            except Exception as e:  # noqa
+                ck.fail("xyz_ordered/swap-loop/raises", "xyz_ordered raised %s: %s on a signed-permutation affine" % (type(e).__name__, e), rep)
+                continue
+        aff2, d2 = (calls[-1][2], calls[-1][3]) if calls else (S, data)
+        A2 = aff2[:3, :3]
+        rep = dict(rep, swapaxes_calls=[c[:2] for c in calls], affine_after_loop=aff2.tolist())
+        # ---- direct oracles
+        if any(c[0] != c[1] + 1 for c in calls):
+            ck.fail("xyz_ordered/swap-loop/non-adjacent-swap", "xyz_ordered swapped a non-adjacent axis pair", rep)
+        if len(calls) != ninv:
+            ck.fail("xyz_ordered/swap-loop/number-of-swaps", "xyz_ordered made %d axis swaps, the axis order has %d inversions" % (len(calls), ninv), rep)
+        an2 = [int(x) for x in np.argmax(np.abs(A2), axis=0)]
+        if an2 != sorted(an2):
+            ck.fail("xyz_ordered/swap-loop/not-sorted", "world axes are not in order after the swap loop", rep)
+        if not np.array_equal(aff2[:, 3], S[:, 3]):
+            ck.fail("xyz_ordered/swap-loop/offset-changed", "the swap loop changed the translation column", rep)
+        axes = [ax for ax in perms if d2.shape == tuple(sshape[a] for a in ax) and np.array_equal(d2, np.transpose(data, ax))]
+        if len(axes) != 1:
+            ck.fail("xyz_ordered/swap-loop/data-not-an-axis-permutation", "data after the swap loop is not a transposition of the input", rep)
+            continue
+        axes = list(axes[0])
+        idx = np.indices(sshape).reshape(3, -1)
+        if not np.array_equal(A2 @ idx[axes] + b[:, None], A @ idx + b[:, None]):
+            ck.fail("xyz_ordered/swap-loop/world-positions-change", "after the axis swaps a datum is shown at another world position", dict(rep, data_axes=axes))
+        rd = np.asarray(res.get_fdata())
+        if sorted(rd.shape) != sorted(sshape) or not np.array_equal(np.sort(rd.ravel()), data.ravel()):
+            ck.fail("xyz_ordered/swap-loop/result-values", "xyz_ordered result does not hold the input values", rep)
+        # ---- model (exact)
+        trace = [c[1] if c[0] == c[1] + 1 else 99 for c in calls]
+        T.add("xyz_loop_agrees %s %s %s %s" % (cqm(A.T), clist([cnat(k) for k in trace]), cqm(A2.T), clist([cnat(a) for a in axes])),
+              "model-vs-impl/xyz_ordered/swap-loop", "trace of _swapaxes calls / affine columns / data axes after the loop differ from ModelSwap.swap_loop",
+              dict(rep, data_axes=axes))
+    ck.section("xyz_loop", cases=ncase)
+
+
 def lookup_nd(data, N, tshape, cval=0.0):
     """like lookup, for data with extra (non-spatial) trailing axes"""
     idx = np.indices(tshape).reshape(3, -1)
@@ -1361,6 +1436,7 @@ def run(ck):
     timed("registration", sec_registration, ck, T)
     timed("cspline_storage", sec_cspline_storage, ck)
     timed("volumeimg", sec_volumeimg, ck, T)
+    timed("xyz_loop", sec_xyz_loop, ck, T)
     timed("volumes_more", sec_volumes_more, ck)
     timed("realign4d", sec_realign, ck, T)
     timed("linear_field", sec_linear, ck)
